@@ -471,6 +471,9 @@ func (fr *Frame) applySpecClosure(spec *FuncSpec, key string, sig *types.Signatu
 		env.vars["result"] = res[0]
 	}
 	for _, cl := range spec.Ensures {
+		if strings.HasPrefix(cl.Label, "local-") && !spec.Assume {
+			continue // `ensures [local-...]`: proved against the body, not re-assumed at call sites (keeps the callers' VCs small)
+		}
 		t, err := env.evalBool(cl.E)
 		if err != nil {
 			fc.eng.stale(spec, cl, err)
@@ -502,6 +505,9 @@ func (fr *Frame) applySpecClosure(spec *FuncSpec, key string, sig *types.Signatu
 			name := "pf_" + mangle(key)
 			fc.eng.declareUF(fc, name, sorts, fc.tc.sortOf(res[0].typ))
 			fc.assume(g, eq(res[0].t, app(name, ts...)))
+		} else if t, ok := fc.pureHeapTerm(key, st, args, res[0].typ); ok {
+			// pure-heap rule (pureheap.go): the result is the value the spec term `f(args)` denotes in this state
+			fc.assume(g, eq(res[0].t, t))
 		}
 	}
 	return res
